@@ -270,6 +270,8 @@ def r10_2(ctx, fx):
         if is_store_map(c):
             for sw_, t, f in fn.bool_tests(c.dest[0]):
                 absent.add((sw_, f))
+    from common import map_presence_edges
+    absent |= map_presence_edges(fn, "addresses")[1]
     ctx.anchor("R10.2", "AddressStore::insert: presence test of the address", len(absent), 1, cfg=fx.cfg)
     r = fn.reach([fn.entry], cut=absent)
     inside = [n_ for (sw_, lab) in full for n_, l in fn.succs(sw_) if l == lab]
@@ -422,8 +424,20 @@ def r10_5(ctx, fx):
     cl = ctx.fn(fx, A + "AddressStore::addresses::{closure#0}", "R10.5")
     if fn is not None and cl is not None:
         srt = fn.calls(r"sort(_unstable)?_by(_cached)?_key$")
+        srt_by = fn.calls(r"sort(_unstable)?_by$")
         tk = fn.calls(r"Iterator::take$")
-        ctx.anchor("R10.5", "addresses: sort_by_key + take", min(len(srt), len(tk)), 1, cfg=fx.cfg)
+        ctx.anchor("R10.5", "addresses: sort_by_key + take", min(len(srt) + len(srt_by), len(tk)), 1, cfg=fx.cfg)
+        if not srt and srt_by:
+            # `sort_by(|l, r| r.score.cmp(&l.score))`: the comparator orders by score, descending (second argument first)
+            cs = [c for c in cl.calls(r"cmp::Ord.*::cmp$|::cmp$") if c.dest == [0]]
+            okc = len(cs) == 1 and len(cs[0].args) == 2 and re.search(r"_3\b.*\.score$", cl.origin(cs[0].args[0])) is not None \
+                and re.search(r"_2\b.*\.score$", cl.origin(cs[0].args[1])) is not None and "Reverse" not in cs[0].name
+            ctx.ob("R10.5", "addresses/sort-key-is-Reverse(score)", bool(okc), site=cl.site(cl.entry), cfg=fx.cfg, detail="highest score first (comparator rhs.score.cmp(lhs.score))")
+            okt = closure_arg(fn, srt_by[0], "addresses::{closure#0}") and guards.rootstrs(fn, tk[0].args[1]) == {"param:_2"} and tk[0].node in fn.reach([srt_by[0].node], after=True) if tk else False
+            ctx.ob("R10.5", "addresses/take(limit)-after-sorting", bool(okt), site=fn.site(fn.entry), cfg=fx.cfg)
+            srt = []
+            cl = None
+    if fn is not None and cl is not None:
         aggs = [s for n, s in cl.assigns() if s["rv"]["r"] == "agg" and s["lhs"] == [0]]
         ok = bool(aggs) and all(s["rv"]["adt"].endswith("cmp::Reverse") and cl.origin(s["rv"]["ops"][0]).endswith(".score") for s in aggs)
         if not ok:
